@@ -64,6 +64,7 @@ type Unit struct {
 	inAppendCopy int
 	touched map[string]bool
 	curVisited string
+	sumSt      *sumState
 }
 
 // frame is one activation (the unit's function or an inlined callee).
@@ -882,6 +883,7 @@ func (u *Unit) mapDom(v *HeapView, mt types.Type, ref Term) Term {
 func (u *Unit) mapLookup(v *HeapView, mt types.Type, ref, key Term) (val Value, present Term) {
 	ks, vt := u.mapSorts(mt)
 	dom := u.mapDom(v, mt, ref)
+	u.noteSumKey(ks, key)
 	present = And(Neq(ref, TNil), Select(dom, key))
 	if isEmptyStruct(vt) {
 		return &StructV{Typ: vt, Zero: true}, present
@@ -968,6 +970,7 @@ func (u *Unit) mapStore(st *State, mt types.Type, ref, key Term, val Value) {
 	domFam := mapDomFam(mt)
 	domArr := u.heapGet(st, domFam, ArrSort(SInt, ArrSort(ks, SBool)))
 	oldDom := Select(domArr, ref)
+	u.noteSumKey(ks, key)
 	newDom := u.ctx.Named("dom", Store(oldDom, key, TTrue))
 	// cardinality bookkeeping
 	f := u.cardFun(ks)
@@ -1004,6 +1007,7 @@ func (u *Unit) mapDelete(st *State, mt types.Type, ref, key Term) {
 	domFam := mapDomFam(mt)
 	domArr := u.heapGet(st, domFam, ArrSort(SInt, ArrSort(ks, SBool)))
 	oldDom := Select(domArr, ref)
+	u.noteSumKey(ks, key)
 	newDom := u.ctx.Named("dom", Store(oldDom, key, TFalse))
 	f := u.cardFun(ks)
 	u.ctx.Assert(Implies(st.G, Eq(app(f, SInt, newDom), Ite(Select(oldDom, key), Arith("-", app(f, SInt, oldDom), TOne), app(f, SInt, oldDom)))), "card-delete")
